@@ -66,9 +66,12 @@ PeerEOF == /\ sent = WireLen /\ ~eof /\ eof' = TRUE
 \* bytes that must have arrived before the handler of request i can be called
 Need(i) == IF cfg.streaming THEN reqs[i].headEnd ELSE reqs[i].end
 
-\* requests the server does not hand to a handler: malformed, over the body limit (buffered mode), or cut short
-\* by the peer closing the connection
-Rejectable(i) == reqs[i].bad \/ (reqs[i].big /\ ~cfg.streaming) \/ reqs[i].partial
+\* requests the server must not hand to a handler: malformed, over the body limit (buffered mode), or cut short by
+\* the peer closing the connection before the handler could be called (buffered: anywhere; streaming: inside the head)
+MustReject(i) == \/ reqs[i].bad \/ (reqs[i].big /\ ~cfg.streaming)
+                 \/ (reqs[i].partial /\ (~cfg.streaming \/ reqs[i].end < reqs[i].headEnd))
+\* a request cut short inside its body may, in streaming mode, be handled (its stream then fails) or rejected
+Rejectable(i) == MustReject(i) \/ reqs[i].partial
 
 \* tracer (C19): DoStart / DoFinish.  A handler runs inside an open pair, at most one handler per pair; the finish
 \* of a pair comes after the response of the request handled in it and carries that request.
@@ -83,7 +86,7 @@ InPair == cfg.trace => topen
 
 \* Expect: 100-continue: an interim response may be written after the head was read and before the body is
 \* read (only when the request asked for it; the property does not oblige the server to send it)
-SendInterim == /\ phase = "idle" /\ cur <= N /\ ~Rejectable(cur) /\ reqs[cur].expect100 /\ ~interim
+SendInterim == /\ phase = "idle" /\ cur <= N /\ ~MustReject(cur) /\ reqs[cur].expect100 /\ ~interim
                /\ sent >= reqs[cur].headEnd
                /\ interim' = TRUE
                /\ out' = Append(out, [i |-> cur, kind |-> "interim", close |-> FALSE])
@@ -92,8 +95,8 @@ SendInterim == /\ phase = "idle" /\ cur <= N /\ ~Rejectable(cur) /\ reqs[cur].ex
 
 \* read head (+ body, or prefetch part of it) and call the handler
 Handle(newrd) ==
-    /\ phase = "idle" /\ cur <= N /\ ~Rejectable(cur)
-    /\ sent >= Need(cur)
+    /\ phase = "idle" /\ cur <= N /\ ~MustReject(cur)
+    /\ sent >= (IF reqs[cur].partial THEN reqs[cur].headEnd ELSE Need(cur))
     /\ newrd <= sent /\ reqs[cur].headEnd <= newrd /\ newrd <= reqs[cur].end
     /\ ~cfg.streaming => newrd = reqs[cur].end
     /\ rd' = newrd /\ cons' = 0
@@ -128,7 +131,7 @@ LastClose == out[Len(out)].close
 \* after the response: close, or skip the unread rest of a streamed body and go on with the next request
 \* the connection must be closed after a response when the request or the handler asked for it, or when the
 \* response announced it
-MustClose == LastClose \/ reqs[cur].close \/ reqs[cur].hclose
+MustClose == LastClose \/ reqs[cur].close \/ reqs[cur].hclose \/ reqs[cur].partial
 CloseAfter == /\ phase = "after" /\ MustClose
               /\ phase' = "closed"
               /\ UNCHANGED <<reqs, cfg, sent, eof, rd, cur, cons, interim, hlog, out, topen, pairReq, tlog>>
@@ -217,9 +220,13 @@ Stops(i) == reqs[i].close \/ reqs[i].hclose \/ Rejectable(i) \/ cfg.wfail = i
 FirstStop == IF \E i \in 1 .. N : Stops(i)
              THEN CHOOSE i \in 1 .. N : Stops(i) /\ \A j \in 1 .. i - 1 : ~Stops(j)
              ELSE N + 1
-ExpectedHandled == IF FirstStop <= N /\ Rejectable(FirstStop) THEN FirstStop - 1 ELSE IF FirstStop <= N THEN FirstStop ELSE N
+ExpectedHandled == IF FirstStop <= N /\ MustReject(FirstStop) THEN FirstStop - 1 ELSE IF FirstStop <= N THEN FirstStop ELSE N
+\* a request cut short inside its body (streaming) may or may not have reached its handler
+HandledOK(n) == \/ n = ExpectedHandled
+                \/ (FirstStop <= N /\ reqs[FirstStop].partial /\ ~MustReject(FirstStop) /\ ~reqs[FirstStop].close
+                    /\ ~reqs[FirstStop].hclose /\ cfg.wfail # FirstStop /\ n = FirstStop - 1)
 \* a voluntary server close (allowed) can only shorten the outcome; without it the outcome is exact
 FinalIndependent == (phase = "closed" /\ \A k \in 1 .. Len(out) : out[k].close => (reqs[out[k].i].close \/ reqs[out[k].i].hclose \/ out[k].kind = "reject"))
-                        => \/ Len(hlog) = ExpectedHandled
+                        => \/ HandledOK(Len(hlog))
                            \/ (cfg.streaming /\ Len(hlog) < ExpectedHandled)   \* CloseUnread
 =============================================================================
